@@ -107,7 +107,13 @@ pub struct PctDec<'a> { pub s: &'a str }
 pub struct Utf8Error { pub g: u8 }
 #[verifier::external_body]
 pub fn percent_decode_str<'a>(s: &'a str) -> (r: PctDec<'a>) ensures r.s == s { unimplemented!() }
+// the lossy sibling (U+FFFD for invalid sequences): never fails, agrees with the strict decoder where that succeeds
+pub uninterp spec fn pct_lossy(s: Seq<char>) -> Seq<char>;
 impl<'a> PctDec<'a> {
+    #[verifier::external_body]
+    pub fn decode_utf8_lossy(self) -> (r: Cow<'a>)
+        ensures r.text() == pct_lossy(self.s@), pct_utf8(self.s@) matches Some(t) ==> r.text() == t
+    { unimplemented!() }
     #[verifier::external_body]
     pub fn decode_utf8(self) -> (r: core::result::Result<Cow<'a>, Utf8Error>)
         ensures r is Ok <==> pct_utf8(self.s@) is Some, r matches Ok(c) ==> Some(c.text()) == pct_utf8(self.s@)
